@@ -245,7 +245,16 @@ def doLabel (s : St) (l : Label) (raw : String) : IO St := do
     let w' := apply w l
     let (m', vs) := s.m.step w l w'
     printVios (if s.diverged then s.sc ++ "~" else s.sc) s.line vs
-    return { s with w := w', m := m', labels := s.labels + 1, cov := bump s.cov (labelKind l) }
+    -- non-vacuity of the C06 chain invariant's premises: accepted real histories of serial buses with nested live handlers
+    let cov := bump s.cov (labelKind l)
+    let serial := (List.range w'.nb).all fun b => !(w'.bus b).parallel
+    let cov := match l with
+      | .hSched .. =>
+        if !s.diverged && serial && w'.stack.length ≥ 2 then
+          bump (if w'.stack.length ≥ 3 then bump cov "chain.serial.depth>=3" else cov) "chain.serial.depth>=2"
+        else cov
+      | _ => cov
+    return { s with w := w', m := m', labels := s.labels + 1, cov := cov }
   else
     IO.println s!"REJ {s.sc} {s.line} {(checks w l).why} || {raw}"
     -- degraded mode: follow the real history anyway (the effect of the label is applied without its guard)
